@@ -117,8 +117,48 @@ func runC12(p *core.Prog, r *core.Result) {
 			return false
 		})
 	}
+	// the scope: target() and the helpers of the package it hands (unsanitised) user paths to (targetSources(list),
+	// generatedPaths(list)); inside a helper the parameter that receives them is a user-path parameter again
+	scopeFns := append([]*ssa.Function{}, core.WithAnons(bt)...)
+	inScopeFn := map[*ssa.Function]bool{}
+	for _, f := range scopeFns {
+		inScopeFn[f] = true
+	}
+	for depth := 0; depth < 2; depth++ {
+		for _, f := range append([]*ssa.Function{}, scopeFns...) {
+			for _, c := range core.Calls(f) {
+				h := core.Callee(c)
+				if h == nil || inScopeFn[h] || h.Blocks == nil || h.Pkg != bt.Pkg || h == lsf || h == sl || h == rsp || h.Name() == "loadFunction" {
+					continue
+				}
+				handed := false
+				for i, a := range c.Common().Args {
+					// (a wrapper that sanitises what it is handed is a sanitiser for its caller and, inside, a place
+					// where user paths arrive)
+					rawArg := core.DependsOn(a, core.SliceOpts{Stores: true, ThroughCall: func(c *ssa.Call) bool { return !isSanitiser(c) }}, func(x ssa.Value) bool {
+						for _, up := range userParams {
+							if x == ssa.Value(up) {
+								return true
+							}
+						}
+						return false
+					})
+					if i < len(h.Params) && rawArg {
+						userParams = append(userParams, h.Params[i])
+						handed = true
+					}
+				}
+				if handed {
+					for _, g := range core.WithAnons(h) {
+						inScopeFn[g] = true
+						scopeFns = append(scopeFns, g)
+					}
+				}
+			}
+		}
+	}
 	nSinks := 0
-	for _, f := range core.WithAnons(bt) {
+	for _, f := range scopeFns {
 		for _, c := range core.Calls(f) {
 			cal := core.Callee(c)
 			if cal == nil {
@@ -176,7 +216,7 @@ func runC12(p *core.Prog, r *core.Result) {
 		for root.Parent() != nil {
 			root = root.Parent()
 		}
-		r.Check(root == bt, "R12.1", "dawn.(*Project).loadSourceFile#caller:"+fname(c.Parent()), p.InstrPos(c.(ssa.Instruction)), "source files are registered only by target()", "loadSourceFile is called outside target(): a source path can be registered without the root-escape check")
+		r.Check(root == bt || inScopeFn[root], "R12.1", "dawn.(*Project).loadSourceFile#caller:"+fname(c.Parent()), p.InstrPos(c.(ssa.Instruction)), "source files are registered only by target()", "loadSourceFile is called outside target(): a source path can be registered without the root-escape check")
 	}
 	// sourceLabel itself goes through repoSourcePath first
 	okSL := false
@@ -365,6 +405,18 @@ func runC12(p *core.Prog, r *core.Result) {
 			if _, isLookup := in.(*ssa.Lookup); isLookup && !ok {
 				tbl := table
 				ok = core.DependsOn(kv, core.SliceOpts{Stores: true}, func(v ssa.Value) bool {
+					// ... or through a key-listing helper that is handed the table (sortedKeys(proj.modules))
+					if hc, isCall := v.(*ssa.Call); isCall {
+						if h := core.Callee(hc); h != nil && core.InModule(h) && h.Blocks != nil {
+							if _, isSlice := h.Signature.Results().At(0).Type().Underlying().(*types.Slice); h.Signature.Results().Len() == 1 && isSlice {
+								for _, a := range hc.Call.Args {
+									if core.LoadOfField(core.Unwrap(a), pkgRoot, "Project", tbl) {
+										return true
+									}
+								}
+							}
+						}
+					}
 					nx, isNext := v.(*ssa.Next)
 					if !isNext {
 						return false
@@ -723,6 +775,10 @@ func runC14(p *core.Prog, r *core.Result) {
 			}
 			if str, ok := core.ConstString(e); ok {
 				parts = append(parts, str)
+			} else if names := tableStrings(e); len(names) > 0 {
+				// an element of a table of names that is walked (for _, name := range []string{"temp", "index.json"}):
+				// one alternative per entry, written a|b
+				parts = append(parts, strings.Join(names, "|"))
 			} else {
 				parts = append(parts, "?")
 			}
@@ -740,7 +796,24 @@ func runC14(p *core.Prog, r *core.Result) {
 	for _, c := range markCalls {
 		if a, ok := c.Common().Args[markArg].(*ssa.Call); ok {
 			if b, parts := joinConsts(a); b == "work" {
-				marked[strings.Join(parts, "/")] = true
+				// expand the alternatives of a table-driven part
+				alts := []string{""}
+				for i, part := range parts {
+					var next []string
+					for _, alt := range strings.Split(part, "|") {
+						for _, pre := range alts {
+							if i == 0 {
+								next = append(next, alt)
+							} else {
+								next = append(next, pre+"/"+alt)
+							}
+						}
+					}
+					alts = next
+				}
+				for _, a := range alts {
+					marked[a] = true
+				}
 			}
 		}
 	}
@@ -1698,4 +1771,49 @@ func checkIndexComplete(p *core.Prog, r *core.Result) {
 		})
 	}
 	r.Floor("R14.7", nApp, 1, "appends to index.Targets in saveIndex")
+}
+
+// tableStrings: v is an element read in a loop over a string table that is written out in the function (a slice or
+// array literal of constants); the constants of the table.
+func tableStrings(v ssa.Value) []string {
+	ld, ok := core.Unwrap(v).(*ssa.UnOp)
+	if !ok || ld.Op != token.MUL {
+		return nil
+	}
+	ia, ok := ld.X.(*ssa.IndexAddr)
+	if !ok {
+		return nil
+	}
+	if _, isConst := core.ConstInt(ia.Index); isConst {
+		return nil
+	}
+	base := ia.X
+	if sl, isSlice := base.(*ssa.Slice); isSlice {
+		base = sl.X
+	}
+	arr, ok := base.(*ssa.Alloc)
+	if !ok {
+		return nil
+	}
+	var out []string
+	for _, ref := range *arr.Referrers() {
+		ea, ok := ref.(*ssa.IndexAddr)
+		if !ok {
+			continue
+		}
+		if _, isConst := core.ConstInt(ea.Index); !isConst {
+			continue
+		}
+		for _, r2 := range *ea.Referrers() {
+			if st, ok := r2.(*ssa.Store); ok && st.Addr == ssa.Value(ea) {
+				s, isStr := core.ConstString(st.Val)
+				if !isStr {
+					return nil
+				}
+				out = append(out, s)
+			}
+		}
+	}
+	sort.Strings(out)
+	return out
 }
